@@ -13,6 +13,20 @@ def run(ctx):
         if rc == 0:
             open(f'{w}/l1.model', 'w').write(''.join(l for l in open(f'{w}/l1.trace') if not l.startswith('#')))
             run_modeld(ctx, 'l1', f'{w}/l1.model', 'l1'); ctx.evaluations += 144
+    if cargo_harness(ctx, ['h_config']):
+        w = ctx.work; n = 2000 if ctx.quick() else 60000
+        e = env_offline(); e['VERIF_SEED'] = str(ctx.seed)
+        rc, out, dt = sh([harness_bin('h_config'), 'gen', str(n), f'{w}/config.trace', f'{w}/config.json'], env=e, timeout=3600)
+        if rc != 0: ctx.broken.append('h_config crashed: ' + out[-300:])
+        else:
+            s = json.load(open(f'{w}/config.json'))
+            run_modeld(ctx, 'config', f'{w}/config.trace', 'config')
+            ctx.evaluations += s['cases']; ctx.distinct_nontrivial += s['distinct_nontrivial']; ctx.samples += s['samples'][:2]
+            ctx.cov['config_histogram'] = s['histogram']
+            def to_replay(fl): return ('monitor-' + fl['kind'], ['one `ld` line: env SCCACHE_DIR, SCCACHE_CACHE_SIZE, SCCACHE_DIRECT, SCCACHE_LOCAL_RW_MODE (hex or -), [cache.disk] of the file, loaded result', 'replay: ./check C15 --replay <this file>   (real Config::load)'], '\n'.join(fl['ops']))
+            monitor_failures(ctx, s['monitor_failures'], findings, 'h_config monitor', to_replay)
+            ctx.rules.append('h_config: the real Config::load under generated values of the four disk-cache variables (valid, mis-spelt, mixed-case, non-unicode, overflowing sizes) x generated [cache.disk] sections (each field present or absent), '
+                             'and parse_size on generated size strings, each diffed against ConfigM.load / parseSize; non-trivial = distinct case with a file section and at least one variable set that loads')
     if cargo_repo_bins(ctx, ('sccache', 'sccache-dist')):
         nh, nr = (3, 10) if ctx.quick() else (24, 30)
         res = sysmon.st.run_readonly(sysmon.sysroot(ctx, 'c15'), 'c15', '/usr/bin/gcc', ctx.seed * 17, nh, nr)
@@ -20,6 +34,8 @@ def run(ctx):
         for conf in ('rw_mode_only', 'file'):
             res = sysmon.st.run_readonly(sysmon.sysroot(ctx, 'c15'), 'c15' + conf[:2], '/usr/bin/gcc', ctx.seed * 23, 2 if ctx.quick() else 8, 6 if ctx.quick() else 20, conf=conf)
             sysmon.feed(ctx, res, findings, f'system read-only gcc, configuration variant {conf}')
+        res = sysmon.st.run_readonly(sysmon.sysroot(ctx, 'c15'), 'c15fe', '/usr/bin/gcc', ctx.seed * 29, 1 if ctx.quick() else 4, 5 if ctx.quick() else 12, damage=False, conf='file_env_dir')
+        sysmon.feed(ctx, res, findings, 'system read-only gcc, rw_mode in the file and SCCACHE_DIR in the environment')
         res = sysmon.st.run_readonly(sysmon.sysroot(ctx, 'c15'), 'c15o', '/usr/bin/gcc', ctx.seed * 19, 1, 6, oversize=True)
         sysmon.feed(ctx, res, findings, 'system read-only, directory larger than its size limit')
     ctx.rules.append('system: three configuration variants (SCCACHE_DIR + SCCACHE_LOCAL_RW_MODE; SCCACHE_LOCAL_RW_MODE as the only disk-cache variable with the cache at its default location; config file with rw_mode = "READ_ONLY"); cache populated read-write (6 requests), half of the histories with damaged entries, server restarted with SCCACHE_LOCAL_RW_MODE=READ_ONLY (one third with SCCACHE_RECACHE=1, half with preprocessor cache mode off), '
@@ -27,4 +43,7 @@ def run(ctx):
     ctx.assumptions += ['mtimes are touched on every hit (metadata, not part of the statement)', 'proviso of reopen_keeps_files_partial: the directory is within its size limit at first use (F-C15-a otherwise)']
 
 def replay(ctx, path):
+    if any(l.startswith('ld\t') for l in open(path)):
+        if not cargo_harness(ctx, ['h_config']): return 2
+        rc, out, dt = sh([harness_bin('h_config'), 'replay', path]); print(out); return rc
     print(open(path).read()); return 0
